@@ -393,6 +393,9 @@ func runC19(p *load.Program, r *core.Report) {
 		}
 	}
 
+	// ---- W6 (= C07.Q6) a dispatched message is handed to one worker only
+	poolSingleHandover(p, r, "C19.W6 handed-over-once", fwd)
+
 	// ---- W5 worker options
 	rule5 := "C19.W5 worker-options"
 	r.Floor(rule5, 3)
@@ -446,6 +449,52 @@ func runC19(p *load.Program, r *core.Report) {
 				r.Bad(rule5, key, fname(f), p.Pos(in.Pos()), inst, fmt.Sprintf("LinkParent true: %v, MailboxSize from WorkerMailboxSize: %v", link, mbox))
 			}
 		})
+	}
+}
+
+// poolSingleHandover: in Pool.forward, once the message has been handed to a worker (the success
+// edge of a Forward whose error is tested, or right after a Forward whose result is not looked at —
+// the replacement worker) no further Forward is reachable: a request handed to two workers is
+// processed twice and answered twice with the same reference.
+func poolSingleHandover(p *load.Program, r *core.Report, rule string, fwd *ssa.Function) {
+	rid := strings.SplitN(rule, " ", 2)[0]
+	r.Floor(rule, 1)
+	fn := fname(fwd)
+	key := rid + "|" + fn
+	inst := "after the message has been handed to a worker no second hand-over is reachable in the same dispatch"
+	isFwd := func(in ssa.Instruction) bool {
+		cc := callCommon(in)
+		return cc != nil && callsNamed(in, "Forward") && len(cc.Args) >= 2
+	}
+	var calls []*ssa.Call
+	eachInstr(fwd, func(in ssa.Instruction) {
+		if c, ok := in.(*ssa.Call); ok && isFwd(in) {
+			calls = append(calls, c)
+		}
+	})
+	if len(calls) == 0 {
+		r.Unk(rule, key, fn, p.Pos(fwd.Pos()), inst, "no Forward call in the dispatcher")
+		return
+	}
+	var probs []string
+	for _, c := range calls {
+		var starts []Point
+		isNil, _, _ := nilEdges(c)
+		if len(isNil) > 0 {
+			for _, e := range isNil {
+				starts = append(starts, Point{e.To(), 0})
+			}
+		} else {
+			starts = []Point{{c.Block(), indexIn(c) + 1}}
+		}
+		if hit := reaches(starts, nil, isFwd); hit != nil {
+			probs = append(probs, fmt.Sprintf("after the hand-over at %s the Forward at %s is still reachable", p.Pos(c.Pos()), p.Pos(hit.Pos())))
+		}
+	}
+	if len(probs) > 0 {
+		r.Bad(rule, key, fn, p.Pos(fwd.Pos()), inst, strings.Join(probs, "; ")+": the same request is processed by two workers and answered twice")
+	} else {
+		r.OK(rule, key, fn, p.Pos(fwd.Pos()), inst, fmt.Sprintf("%d hand-over site(s), each followed by the return", len(calls)))
 	}
 }
 
